@@ -304,6 +304,9 @@ func DrawScript(r *Rng, cfg ScriptConfig, m *ModuleSpec, name string) proto.GenS
 					}
 					rule.Render = append(rule.Render, proto.Part{Names: true, Flip: flip})
 				}
+				if r.P(0.1) {
+					rule.Render = append(rule.Render, proto.Part{Octal: true, Text: fmt.Sprintf("Perm_%s_%s", sanitize(name), td.Name)})
+				}
 				if (td.Kind == "struct" || td.Kind == "generic") && r.P(0.3) {
 					// what do the fields' comments say?
 					rule.Render = append(rule.Render, proto.Part{FieldDocs: true})
